@@ -7,7 +7,7 @@ within a phase, one queue), phases are separated by a barrier that every thread 
 same number of times, nested locks are taken in a global order.
 """
 OPS = {"LOCKINC": 0, "ATOMIC_ADD": 1, "PRODUCE": 2, "CONSUME": 3, "GARBAGE": 4, "PREEMPT": 5, "BARRIER": 6,
-       "CAS": 7, "NESTED": 8, "LONELY": 9, "SPAWNJOIN": 10, "EXCHANGE": 11}
+       "CAS": 7, "NESTED": 8, "LONELY": 9, "SPAWNJOIN": 10, "EXCHANGE": 11, "WAIT_EVENT": 12, "SET_EVENT": 13}
 
 
 def flatten(params, threads):
@@ -41,6 +41,8 @@ def expected(script):
     joined = 0
     conserved = 0
     barriers = [0] * nthreads
+    events_set = set()
+    events_waits = 0
     for t, ops in enumerate(threads):
         for (op, x, y, z) in ops:
             if op == 0:
@@ -65,6 +67,10 @@ def expected(script):
                 joined += x
             elif op == 11:
                 conserved += y
+            elif op == 12:
+                events_waits += 1
+            elif op == 13:
+                events_set.add(x % nthreads)
     assert len(set(barriers)) == 1
     out = []
     for i in range(nmutex):
@@ -75,10 +81,39 @@ def expected(script):
     out.append("joined %d" % joined)
     out.append("conserved %d" % conserved)
     out.append("barrier %d 0" % barriers[0])
+    out.append("events %d %d" % (len(events_set), events_waits))
     return "\n".join(out) + "\n"
 
 
+def generate_events(rng):
+    """Many objects keyed in the wait table at once: every thread but the main one waits on
+    its own one-shot event (own mutex + condition); the main thread forces collections while
+    they are queued and then sets the events in random order. Deadlock-free by construction:
+    the main thread never waits."""
+    nthreads = rng.randint(6, 10)
+    threads = [[] for _ in range(nthreads)]
+    for t in range(1, nthreads):
+        if rng.random() < 0.3:
+            threads[t].append((4, rng.choice([1, 50]), 0, 0))
+        threads[t].append((12, t, 0, 0))
+        if rng.random() < 0.3:
+            threads[t].append((0, 0, 1, rng.choice([0, 1, 2])))
+    main = []
+    for _ in range(rng.randint(1, 4)):
+        main.append((5, rng.choice([1, 1, 3, 4, 2]), 0, 0))
+    order = list(range(1, nthreads))
+    rng.shuffle(order)
+    for e in order:
+        main.append((13, e, rng.randrange(2), 0))
+        if rng.random() < 0.3:
+            main.append((5, rng.choice([1, 3, 4]), 0, 0))
+    threads[0] = main
+    return flatten((nthreads, 1, 1, 1), threads), "events"
+
+
 def generate(rng, max_threads=5):
+    if rng.random() < 0.12:
+        return generate_events(rng)
     nthreads = rng.randint(2, max_threads)
     nmutex = rng.randint(1, 3)
     natomic = rng.randint(1, 3)
